@@ -1,7 +1,8 @@
 (* C08 thorough tier: line-protocol driver around the EXTRACTED reference (prims.ml, produced by
    `Extraction "prims.ml" check_case run.` with ExtrOcamlBasic only: nat/positive/Z/N stay the
    Coq datatypes).  Reads one compact case per line on stdin (grammar: harness/src/bin/c08.rs),
-   prints the verdict of Prims.check_case per line: 0 agree, 1 disagree, 2 unspecified. *)
+   prints the verdict of Prims.check_case per line: 0 agree, 1 disagree, 2 unspecified
+   (9: the extracted code ran out of stack, which the check reports as a broken obligation). *)
 open Prims
 
 let rec nat_of_int i = if i <= 0 then O else S (nat_of_int (i - 1))
@@ -88,7 +89,8 @@ let () =
       let line = input_line stdin in
       if String.trim line <> "" then begin
         let c = p_case line in
-        print_string (match check_case c with N0 -> "0" | Npos XH -> "1" | _ -> "2");
+        (* 9 = the extracted reference ran out of stack on this case: reported, never a silent skip *)
+        print_string (try (match check_case c with N0 -> "0" | Npos XH -> "1" | _ -> "2") with Stack_overflow -> "9");
         print_newline ()
       end
     done
